@@ -4,6 +4,7 @@ C16 — EEMS 2.0 command files translate to equivalent MPilot programs.
 import MPilot.Model.Eems2
 import MPilot.Generated.Eems2Table
 import MPilot.Generated.Decls
+import Mathlib.Data.List.Forall2
 
 namespace MPilot.C16
 open MPilot MPilot.Generated
@@ -94,5 +95,181 @@ theorem convert_mpilot_style (table : List (String × String)) (n : CNode) (r : 
   rw [this]
   cases n
   simp_all
+
+/-! ### whole files: an EEMS 2.0 file loads to the same program as the MPilot file obtained by the mapping -/
+
+/-- the MPilot command the rule maps an EEMS 2.0 command to, given the result name `s` the rule finds for it -/
+def mapped (table : List (String × String)) (n : CNode) (s : String) : CNode :=
+  { resultName := some s,
+    command := match table.find? (·.1 == n.command) with | some (_, v) => v | none => n.command,
+    args := n.args.filter (fun a => a.name != "NewFieldName" && a.name != "OutFileName"),
+    line := n.line }
+
+/-- no target of the table is itself an EEMS 2.0 name: a translated file is not translated again -/
+def TargetsNotKeys (table : List (String × String)) : Prop := ∀ kv ∈ table, ∀ kv' ∈ table, kv.2 ≠ kv'.1
+
+instance (table : List (String × String)) : Decidable (TargetsNotKeys table) := by unfold TargetsNotKeys; infer_instance
+
+/-- re-checked against the table extracted from the source on every run -/
+theorem targets_not_keys : TargetsNotKeys eems2Table := by decide +kernel
+
+theorem convertNode_eq_mapped (table : List (String × String)) (n c : CNode) (h : convertNode table n = .ok c) :
+    ∃ s, v2ResultName n = some (.str s) ∧ c = mapped table n s := by
+  unfold convertNode at h
+  split at h
+  · rename_i s hs
+    injection h with h; subst h
+    exact ⟨s, hs, rfl⟩
+  · cases h
+
+/-- **conversion of a whole file is the mapping applied command by command, in order** -/
+theorem convertAll_spec (table : List (String × String)) : ∀ (ns cs : List CNode), convertAll table ns = .ok cs →
+    List.Forall₂ (fun n c => ∃ s, v2ResultName n = some (.str s) ∧ c = mapped table n s) ns cs := by
+  intro ns
+  induction ns with
+  | nil => intro cs h; simp [convertAll] at h; subst h; exact .nil
+  | cons n rest ih =>
+    intro cs h
+    simp only [convertAll] at h
+    split at h
+    · cases h
+    · rename_i c hc
+      split at h
+      · cases h
+      · rename_i cs' hcs
+        injection h with h; subst h
+        exact .cons (convertNode_eq_mapped table n c hc) (ih cs' hcs)
+
+/-- and the first command without a usable name stops the conversion with its own line -/
+theorem convertAll_error (table : List (String × String)) : ∀ (ns : List CNode) (e : PErr), convertAll table ns = .error e →
+    ∃ n ∈ ns, e = .mp "ProgramError" (some n.line) ∧ ∀ s, v2ResultName n ≠ some (.str s) := by
+  intro ns
+  induction ns with
+  | nil => intro e h; simp [convertAll] at h
+  | cons n rest ih =>
+    intro e h
+    simp only [convertAll] at h
+    split at h
+    · rename_i e' he
+      injection h with h; subst h
+      refine ⟨n, List.mem_cons_self, ?_, ?_⟩
+      · unfold convertNode at he; split at he
+        · cases he
+        · injection he with he; exact he.symm
+      · intro s hs; unfold convertNode at he; rw [hs] at he; cases he
+    · split at h
+      · rename_i e' he
+        injection h with h; subst h
+        obtain ⟨m, hm, h1, h2⟩ := ih _ he
+        exact ⟨m, List.mem_cons_of_mem _ hm, h1, h2⟩
+      · cases h
+
+/-- a mapped command does not carry an EEMS 2.0 name any more -/
+theorem mapped_not_key (table : List (String × String)) (ht : TargetsNotKeys table) (n : CNode) (s : String) :
+    table.any (·.1 == (mapped table n s).command) = false := by
+  unfold mapped
+  simp only
+  split
+  · rename_i k v hf
+    have hmem := List.mem_of_find?_eq_some hf
+    rw [Bool.eq_false_iff]; intro hany
+    rw [List.any_eq_true] at hany
+    obtain ⟨kv', hkv', heq⟩ := hany
+    have heq' : kv'.1 = v := by simpa using heq
+    exact ht _ hmem _ hkv' heq'.symm
+  · rename_i hf
+    rw [Bool.eq_false_iff]; intro hany
+    rw [List.any_eq_true] at hany
+    obtain ⟨kv', hkv', heq⟩ := hany
+    have := List.find?_eq_none.mp hf kv' hkv'
+    exact this heq
+
+theorem converted_needs_no_conversion (table : List (String × String)) (ht : TargetsNotKeys table) (ns cs : List CNode)
+    (v : Nat) (hv : v ≠ 2) (h : convertAll table ns = .ok cs) : needsConversion table ⟨cs, v⟩ = false := by
+  have hs := convertAll_spec table ns cs h
+  unfold needsConversion
+  have hv' : (v == 2) = false := by simpa using hv
+  simp only [hv', Bool.false_or]
+  rw [Bool.eq_false_iff]; intro hany
+  rw [List.any_eq_true] at hany
+  obtain ⟨c, hc, hk⟩ := hany
+  clear h
+  induction hs with
+  | nil => cases hc
+  | cons hnc _ ih =>
+    rcases List.mem_cons.mp hc with rfl | hc'
+    · obtain ⟨s, _, rfl⟩ := hnc
+      rw [mapped_not_key table ht] at hk; cases hk
+    · exact ih hc'
+
+/-- **C16, whole files.**  Let `src2` be a command file the loader treats as EEMS 2.0 (EEMS 2.0 syntax, or some EEMS 2.0 command name), and let
+`src1` be a file in MPilot syntax whose commands are exactly the mapped ones (renamed through the table, result name = own name, else
+`NewFieldName`, else `InFieldName`; `NewFieldName`/`OutFileName` dropped; same lines).  Then loading either - with any libraries, into any
+program - gives the same outcome: the same program (commands, order, result names, declarations, arguments, lines) or the same error. -/
+theorem eems2_file_equiv (table : List (String × String)) (ht : TargetsNotKeys table) (lib : String → Option CmdDecl) (p0 : Program)
+    (src2 src1 : String) (pn2 pn1 : PNode) (h2 : parse src2 = .ok pn2) (h1 : parse src1 = .ok pn1) (hv : pn1.version ≠ 2)
+    (hconv : needsConversion table pn2 = true) (hmap : convertAll table pn2.commands = .ok pn1.commands) :
+    loadSource table lib p0 src2 = loadSource table lib p0 src1 := by
+  have hno : needsConversion table pn1 = false := by
+    have := converted_needs_no_conversion table ht pn2.commands pn1.commands pn1.version hv hmap
+    cases pn1; exact this
+  unfold loadSource
+  simp only [h2, h1, hconv, hno, hmap, if_true]
+  rfl
+
+/-- the same for the pinned table (side condition discharged on the regenerated table) -/
+theorem eems2_file_equiv_builtin (lib : String → Option CmdDecl) (p0 : Program)
+    (src2 src1 : String) (pn2 pn1 : PNode) (h2 : parse src2 = .ok pn2) (h1 : parse src1 = .ok pn1) (hv : pn1.version ≠ 2)
+    (hconv : needsConversion eems2Table pn2 = true) (hmap : convertAll eems2Table pn2.commands = .ok pn1.commands) :
+    loadSource eems2Table lib p0 src2 = loadSource eems2Table lib p0 src1 :=
+  eems2_file_equiv eems2Table targets_not_keys lib p0 src2 src1 pn2 pn1 h2 h1 hv hconv hmap
+
+/-- **"the two therefore compute identical results"**: running what the two files load to - for any command semantics, from any state - is the same
+computation: same final state (results, execution log) and same error, or the same load error. -/
+theorem eems2_results_equal {Val : Type} (sem : Sem Val) (st : St Val) (table : List (String × String)) (ht : TargetsNotKeys table)
+    (lib : String → Option CmdDecl) (p0 : Program)
+    (src2 src1 : String) (pn2 pn1 : PNode) (h2 : parse src2 = .ok pn2) (h1 : parse src1 = .ok pn1) (hv : pn1.version ≠ 2)
+    (hconv : needsConversion table pn2 = true) (hmap : convertAll table pn2.commands = .ok pn1.commands) :
+    (loadSource table lib p0 src2).map (fun p => run sem p st) = (loadSource table lib p0 src1).map (fun p => run sem p st) := by
+  rw [eems2_file_equiv table ht lib p0 src2 src1 pn2 pn1 h2 h1 hv hconv hmap]
+
+/-- a file that cannot be converted is rejected as a whole: nothing is loaded -/
+theorem eems2_unconvertible_rejected (table : List (String × String)) (lib : String → Option CmdDecl) (p0 : Program)
+    (src2 : String) (pn2 : PNode) (h2 : parse src2 = .ok pn2) (hconv : needsConversion table pn2 = true)
+    (n : CNode) (hn : n ∈ pn2.commands) (hbad : ∀ s, v2ResultName n ≠ some (.str s)) :
+    ∃ m ∈ pn2.commands, loadSource table lib p0 src2 = .error (.mp "ProgramError" (some m.line)) := by
+  unfold loadSource
+  simp only [h2, hconv, if_true]
+  cases hc : convertAll table pn2.commands with
+  | error e =>
+    obtain ⟨m, hm, he, _⟩ := convertAll_error table _ e hc
+    exact ⟨m, hm, by simp [he]⟩
+  | ok cs =>
+    exfalso
+    have hs := convertAll_spec table _ _ hc
+    clear hc h2 hconv
+    generalize pn2.commands = ns at hs hn
+    induction hs with
+    | nil => cases hn
+    | cons hnc _ ih =>
+      rcases List.mem_cons.mp hn with rfl | hn'
+      · obtain ⟨s, hs', _⟩ := hnc; exact hbad s hs'
+      · exact ih hn'
+
+/-! non-vacuity: a concrete EEMS 2.0 file and its MPilot counterpart satisfy the premises (parsed by the model's own parser) -/
+section
+def src2 : String := "READ(InFileName = a.csv, InFieldName = elev, OutFileName = o.csv)\nCVTTOFUZZY(InFieldName = elev, NewFieldName = f, TrueThreshold = 2, FalseThreshold = 0)\n"
+def src1 : String := "elev = EEMSRead(InFileName = a.csv, InFieldName = elev)\nf = CvtToFuzzy(InFieldName = elev, TrueThreshold = 2, FalseThreshold = 0)\n"
+
+def cnodeSig (c : CNode) : Option String × String × List (String × Nat) × Nat := (c.resultName, c.command, c.args.map (fun a => (a.name, a.line)), c.line)
+
+example : (match parse src2, parse src1 with
+    | .ok pn2, .ok pn1 =>
+        pn1.version != 2 && needsConversion eems2Table pn2 &&
+        (match convertAll eems2Table pn2.commands with
+         | .ok cs => cs.map cnodeSig == pn1.commands.map cnodeSig
+         | .error _ => false)
+    | _, _ => false) = true := by decide +kernel
+end
 
 end MPilot.C16
